@@ -89,6 +89,17 @@ def configs(tier):
                              'close', 'join'],
                      pool={}, oracle='c07', slow_process_up=0.5),
                 2 if not T else 3, 20000 if not T else 60000))
+    # close() while the supervisor is in the middle of replacing a worker
+    # that was told to exit (every line of the replacement code is a
+    # scheduling point: only plain attributes separate its state check from
+    # the moment the new worker is listed)
+    out.append((dict(name='2proc/worker-replaced-vs-close', procs=2, jobs=J1,
+                     script=['submit:0', 'wait:0', 'killworker:0',
+                             'sleep:0.85', 'close', 'join'],
+                     pool={}, oracle='c07', rr=True, timer_deviation=True,
+                     linepoints=['_repopulate_pool', '_create_worker_process',
+                                 'close'], expand_known=True),
+                2 if not T else 3, 30000 if not T else 150000))
     if T:
         out.append((dict(name='1proc/1job/timers', procs=1, jobs=J1,
                          script=S(1) + ['close', 'join'], pool={},
